@@ -634,6 +634,7 @@ def cases_for(prop, tier, seed, pools, toks, ck):
             cases += gen.gen_store_relations("C07", lang, rnd, pools[lang], toks, per(1, 20), big=True)
             cases += gen.gen_vocab_cases("C07", lang, rnd, pools[lang], toks, per(120, 1500))
             cases += gen.gen_family_cases("C07", lang, rnd, per(6, 100))
+            cases += gen.gen_same_title_cases("C07", lang, rnd, pools[lang])
         cases += gen.gen_huge_store_cases("C07", rnd.choice(L), rnd, pools["en"], heavy(1, 6))
     elif prop in ("C10", "C12"):
         for lang in L:
